@@ -46,31 +46,39 @@ class C07(Property):
     id = "C07"
     title = "SingleFlight/LockedCalls: de-duplication without staleness, per-key exclusion"
     quick_cases = 850
-    thorough_cases = 8000
+    thorough_cases = 11500
     design_ref = "DESIGN.md §6/C07"
     level_text = ("Unbounded Rocq theorems over an interleaving model (any number of threads, any scripts of "
                   "SingleFlight.Do/DoEx, LockedCalls.Do, ResourceManager.GetResource calls on any keys with any "
-                  "function results, every schedule of the atomic actions): at most one function execution per key "
-                  "at every step; every result is the caller's own execution's or that of an execution whose "
-                  "leader's call interval contains the caller's join point; fresh exactly for the leader; "
-                  "LockedCalls runs each caller's own function exactly once; threads are only ever blocked behind "
-                  "their own key; each resource is created successfully at most once and shared. The model is tied "
-                  "to core/syncx by forced schedules (gates in the user functions + quiescence detection).")
+                  "function results, errors or panics, every schedule of the atomic actions): at most one function "
+                  "execution per key at every step; every result is the caller's own execution's or that of an "
+                  "execution whose leader's call interval contains the caller's join point; fresh exactly for the "
+                  "leader; LockedCalls runs each caller's own function exactly once; threads are only ever blocked "
+                  "behind their own key, behind a leader that can move (no deadlock, also after a panic); each resource "
+                  "is created successfully at most once and shared. The decidable log checker scan is proved sound "
+                  "(no overlap, blocked only behind own key) and to accept the log of every run of the model. The model "
+                  "is tied to core/syncx by forced schedules (gates in the user functions + quiescence detection); the "
+                  "two barrier call sites (collection.Cache.Take, cache node Take) are judged on their event logs.")
     level_note = ("Trusted: Coq kernel + vm_compute; hand-written LTS (one action per mutex section / WaitGroup "
                   "operation / fn start and end); the atomicity assumption (supported by the -race free-run in the "
                   "thorough tier); gate-level control reaches only the schedules in which library-internal actions "
-                  "run to the next gate/block; fn panics are outside the property's quantifier.")
-    rule = ("cases: 1..5 threads, scripts of 1..3 calls on 1..3 keys (kinds SingleFlight.DoEx/Do, LockedCalls.Do, "
-            "ResourceManager.GetResource), forced schedule = list of thread ids (all interleavings of start/finish "
-            "for <=3 threads x <=2 keys enumerated, random otherwise); non-trivial = some thread was observed "
-            "blocked behind another thread's execution (a join / a wait) at some step; distinct = canonical JSON hash")
+                  "run to the next gate/block; ret_ok/fresh_once/created_once are transcriptions with reflection lemmas "
+                  "(not proved complete w.r.t. the model).")
+    rule = ("cases: 1..5 threads, scripts of 1..3 calls on 1..3 keys x 2 instances (kinds SingleFlight.DoEx/Do, "
+            "LockedCalls.Do, ResourceManager.GetResource, collection.Cache.Take/Del, cache node Take/TakeWithExpire/"
+            "Del/store fault/corrupt entry; results: value, nil, error, not-found, panic), forced schedule = list of "
+            "thread ids (all gate-level interleavings for 2 callers and for 3 callers of one key enumerated, random "
+            "otherwise), plus ResourceManager Get/Inject/Close sequences; non-trivial = some thread was observed "
+            "blocked behind another thread's execution / a cache reader got a value it did not load / a GetResource "
+            "answered without create; distinct = canonical JSON hash")
     trusted_base = [
         "model theories/C07/Model.v is hand-written; tie = forced-schedule correspondence (harness/cmd/c07, harness/sched)",
         "quiescence detection via runtime.Stack decides 'blocked'; atomicity of mutex sections is assumed (race-checked free runs in the thorough tier)",
         "Go runtime (sync.Mutex, sync.WaitGroup, map) is not modelled",
+        "build-time overlays ADD harness/overlay/syncx/verif_hooks.go and harness/overlay/collection/zz_verif_c07.go (a setter that decorates an unexported SingleFlight field with a gate); nothing is replaced",
     ]
-    assumptions = ["user functions do not panic (outside the property's quantifier)",
-                   "ResourceManager: no Inject/Close during the history; create() does not re-enter the manager"]
+    assumptions = ["a panicking user function is modelled (deferred clean-up; SingleFlight waiters get (nil, nil)) although the property's quantifier does not list panics; that (nil, nil) is accepted by prop_ok (Check.panic_share)",
+                   "ResourceManager: Inject/Close only in sequential histories (rmseq cases), never used after Close; create() does not re-enter the manager and does not return a nil resource without error"]
 
     race_bin = None
 
